@@ -46,6 +46,8 @@ var ownPatterns = []string{
 	`(?s).`, `(?s).*`, `(?s)a.b`, `a\nb`, `(?m)a$\nb`, `(?m)^a|b`, `^a|b`, `a|^b`, `a$|b`, `(?m)(^a|b)+`,
 	`\b`, `\B`, `\ba`, `a\b`, `\Ba`, `a\B`, `\ba\b`, `\bab`, `a\bb`, `a\Bb`, `\b\b`, `\B\B`, `(\b|a)+`, `\b.\b`, `.\b.`, `.\B.`,
 	`a\b|ab`, `(a|\b)b`, `x*\b`, `\bx*`, `\B|a`, `a|\B`,
+	`\b^a`, `(?m)$^`, `(?m)$\n^`, `a$\b`, `\b$`, `(?m)^\b`, `(?m)\Ba$`, `(?m)^a*$`, `(?m)(a$\n)+b`, `\Aa\b`, `a\z|ab`, `(?m)^\B`,
+	`(\ba|b)+$`, `(?m)(^|a)b`, `x*$`, `(?m)x*$`, `\bx+\b|\By`, `(?m)^(a|\b)\n`, `(?m)^.*$`, `\b\w+\b`, `(?m)^\w+$`, `\B\w\B`,
 	`(a)(b)`, `(a)|(b)`, `(?:(a)|b)*`, `((a)*)*b`, `(a*)(a*)`, `(a*?)(a*)`, `(a*)(a*?)b`,
 	`[[:alpha:]]+`, `\d+`, `\w+`, `\s*`, `\w+\s\w+`, `[0-9]+\.[0-9]+`, `foo|foobar`, `foobar|foo`, `(foo|foobar)baz`,
 	`a|`, `|a`, `(|a)+`, `(a|)+`, `()`, `(?:)`, `a**`, `(a?)*`, `(a?)+b`, `(a|b?)*c`, `x(a|ab|abc)*y`,
@@ -338,6 +340,8 @@ func main() {
 		h    []byte
 		at   int
 		real string // real DFA SearchAt, default config, fresh cache
+		realA string // real DFA SearchAtAnchored, default config, fresh cache
+		realI string // real DFA IsMatchAt, default config, fresh cache
 	}
 	var refs []refCase
 	skipped := 0
@@ -403,8 +407,9 @@ func main() {
 									})
 								case 'A':
 									real = guard(func() string { return endStr(d.SearchAtAnchored(c, h, at)) })
+									// the anchored entry point falls back to the ANCHORED Pike VM search
 									fall = guard(func() string {
-										_, e, ok := pike.SearchAt(h, at)
+										_, e, ok := pike.SearchAtAnchored(h, at)
 										if !ok {
 											return "-1"
 										}
@@ -459,7 +464,10 @@ func main() {
 				for _, h := range hays {
 					for at := 0; at <= len(h); at++ {
 						h, at := h, at
-						refs = append(refs, refCase{pi, h, at, guard(func() string { return endStr(d.SearchAt(d.NewCache(), h, at)) })})
+						refs = append(refs, refCase{pi, h, at,
+							guard(func() string { return endStr(d.SearchAt(d.NewCache(), h, at)) }),
+							guard(func() string { return endStr(d.SearchAtAnchored(d.NewCache(), h, at)) }),
+							guard(func() string { return boolStr(d.IsMatchAt(d.NewCache(), h, at)) })})
 					}
 				}
 			}
@@ -555,11 +563,13 @@ func main() {
 	for _, r := range refs {
 		rreqs = append(rreqs, fmt.Sprintf("bt search %d %s %s", r.at, hexOf(r.h), r.pat.dump))
 		rreqs = append(rreqs, fmt.Sprintf("dfa search %d %s %s", r.at, hexOf(r.h), r.pat.dump))
+		rreqs = append(rreqs, fmt.Sprintf("dfa btfirst %d %s %s", r.at, hexOf(r.h), r.pat.dump))
 	}
 	var hreqs []string
 	for _, pi := range infos {
 		hreqs = append(hreqs, "dfa hyps "+pi.dump)
 		hreqs = append(hreqs, "dfa classcompat "+pi.cls+" "+pi.dump)
+		hreqs = append(hreqs, "dfa anchoredhead "+pi.dump)
 	}
 	hans, err := runLean(hreqs)
 	if err != nil {
@@ -567,56 +577,92 @@ func main() {
 		os.Exit(2)
 	}
 	lookFree, lfAll, lfCompat := 0, 0, 0
+	lookAround, laAll, laCompat := 0, 0, 0
+	anchoredN, anchoredHead := 0, 0
 	for i, pi := range infos {
-		pi.hyps = hans[2*i]
+		pi.hyps = hans[3*i]
 		hy := strings.Split(pi.hyps, ",")
-		if len(hy) == 8 && hy[1] == "true" {
+		if len(hy) != 8 {
+			continue
+		}
+		if hy[7] == "true" {
+			anchoredN++
+			if hans[3*i+2] == "true" {
+				anchoredHead++
+			} else {
+				fmt.Printf("ALWAYS-ANCHORED automaton without \\A head state: %q\n", pi.pattern)
+			}
+		}
+		// hy[7] (alwaysAnchored) is replaced by the stronger decidable anchoredHeadB for the theorem's hypothesis
+		if hy[7] == "true" && hans[3*i+2] != "true" {
+			hy[7] = "false"
+			pi.hyps = strings.Join(hy, ",")
+		}
+		allHyps := hy[0] == "true" && hy[2] == "true" && hy[3] == "true" && (hy[4] == "true" || hy[7] == "true")
+		if hy[1] == "true" {
 			lookFree++
-			if hy[0] == "true" && hy[2] == "true" && hy[3] == "true" && hy[4] == "true" {
+			if allHyps {
 				lfAll++
 			}
-			if hans[2*i+1] == "true,true" {
+			if hans[3*i+1] == "true,true" {
 				lfCompat++
 			} else {
-				fmt.Printf("CLASS-INCOMPATIBLE look-free pattern %q\n", pi.pattern)
+				fmt.Printf("CLASS-INCOMPATIBLE look-free pattern %q: %s\n", pi.pattern, hans[3*i+1])
+			}
+		} else {
+			lookAround++
+			if allHyps {
+				laAll++
+			}
+			if hans[3*i+1] == "true,true" {
+				laCompat++
+			} else {
+				fmt.Printf("CLASS-INCOMPATIBLE look-around pattern %q: %s\n", pi.pattern, hans[3*i+1])
 			}
 		}
 	}
-	fmt.Printf("\nlook-free NFAs: %d; of these wf+noRune+sparseDisjoint+prefixOK: %d; classCompatB and classStepB (real byte classes): %d\n", lookFree, lfAll, lfCompat)
+	fmt.Printf("\nlook-free NFAs: %d; of these wf+noRune+sparseDisjoint+(prefixOK|anchored): %d; classCompatB and classStepB (real byte classes): %d\n", lookFree, lfAll, lfCompat)
+	fmt.Printf("always-anchored NFAs: %d; of these anchoredHeadB (start state is \\A): %d\n", anchoredN, anchoredHead)
+	fmt.Printf("NFAs with look-around: %d; of these wf+noRune+sparseDisjoint+(prefixOK|anchored): %d; classCompatB and classStepB (real byte classes, incl. \\n / word-byte separation): %d\n", lookAround, laAll, laCompat)
 	rans, err := runLean(rreqs)
 	if err != nil {
 		fmt.Println("cxdrv failed:", err)
 		os.Exit(2)
 	}
-	type rstat struct{ total, realOK, modelOK int }
+	type rstat struct{ total, realOK, modelOK, realAOK, realIOK int }
 	rstats := map[string]*rstat{}
 	devPat := map[string]map[string]bool{}
 	rprinted := map[string]int{}
 	devPat2 := map[string]bool{}
 	modelDevLt := 0
 	for i, r := range refs {
-		ref := rans[2*i]
+		ref := rans[3*i]
 		if ref == "nil" {
 			ref = "-1"
 		} else {
 			ref = ref[strings.IndexByte(ref, ',')+1:]
 		}
-		model := rans[2*i+1]
+		model := rans[3*i+1]
+		refA := rans[3*i+2]
 		hy := strings.Split(r.pat.hyps, ",")
 		class := "other"
 		if len(hy) == 8 {
-			theoremHyps := hy[0] == "true" && hy[1] == "true" && hy[2] == "true" && hy[3] == "true" && (hy[4] == "true" || hy[7] == "true")
+			theoremHyps := hy[0] == "true" && hy[2] == "true" && hy[3] == "true" && (hy[4] == "true" || hy[7] == "true")
+			kind := "look-free"
+			switch {
+			case hy[1] == "true":
+			case hy[5] == "true":
+				kind = "has \\b or \\B"
+			default:
+				kind = "has ^ $ \\A \\z only"
+			}
 			switch {
 			case theoremHyps && hy[7] != "true":
-				class = "theorem (b) hypotheses hold (look-free, prefixOK)"
+				class = "theorem (b) hypotheses hold (prefixOK), " + kind
 			case theoremHyps:
-				class = "look-free, anchored automaton"
-			case hy[1] == "true":
-				class = "look-free, other hypotheses fail (rune states / overlapping sparse)"
-			case hy[5] == "true":
-				class = "has \\b or \\B"
+				class = "theorem (b) hypotheses hold (anchoredHead), " + kind
 			default:
-				class = "has ^ $ \\A \\z only"
+				class = "hypotheses fail (rune states / overlapping sparse), " + kind
 			}
 		}
 		st := rstats[class]
@@ -627,6 +673,18 @@ func main() {
 		st.total++
 		if r.real == ref {
 			st.realOK++
+		}
+		if r.realA == refA {
+			st.realAOK++
+		} else if rprinted["A"+class] < *verbose {
+			rprinted["A"+class]++
+			fmt.Printf("ANCHORED-DEVIATION [%s] pattern %q at=%d hay=%q: real SearchAtAnchored=%s reference btFirst=%s\n", class, r.pat.pattern, r.at, r.h, r.realA, refA)
+		}
+		if r.realI == boolStr(ref != "-1") {
+			st.realIOK++
+		} else if rprinted["I"+class] < *verbose {
+			rprinted["I"+class]++
+			fmt.Printf("ISMATCH-DEVIATION [%s] pattern %q at=%d hay=%q: real IsMatchAt=%s reference=%s\n", class, r.pat.pattern, r.at, r.h, r.realI, ref)
 		}
 		if model == ref || model == "G" {
 			st.modelOK++
@@ -662,6 +720,7 @@ func main() {
 	sort.Strings(rkeys)
 	for _, k := range rkeys {
 		st := rstats[k]
-		fmt.Printf("%-70s cases=%7d real==ref %7d (deviating patterns %d)  model==ref %7d\n", k, st.total, st.realOK, len(devPat[k]), st.modelOK)
+		fmt.Printf("%-62s cases=%7d SearchAt real==ref %7d (deviating patterns %d) model==ref %7d | SearchAtAnchored real==btFirst %7d | IsMatchAt real==ref %7d\n",
+			k, st.total, st.realOK, len(devPat[k]), st.modelOK, st.realAOK, st.realIOK)
 	}
 }
